@@ -149,6 +149,21 @@ pub fn inputs(ctx: &mut Ctx, tag: u64, f: &mut dyn FnMut(&mut Ctx, &str, u32)) {
     let mut rng = Rng::new(ctx.seed ^ tag);
     // corpus first
     for line in crate::corpus::load("syntax") { for e in [0u32, 0xEEA] { f(ctx, &line, e); } }
+    // focused neighbourhood search: inputs on which model and code disagreed in the first pass
+    // (written by ./check into $VERIF_FOCUS), their prefixes/suffixes and random single-token mutations
+    if let Ok(path) = std::env::var("VERIF_FOCUS") {
+        let focus: Vec<String> = std::fs::read_to_string(path).map(|s| s.lines().map(crate::corpus::unescape).collect()).unwrap_or_default();
+        for base in focus.iter().take(40) {
+            for e in [0u32, 0xEEA] { f(ctx, base, e); }
+            let chars: Vec<char> = base.chars().collect();
+            for cut in 1..chars.len().min(60) { let a: String = chars[..cut].iter().collect(); let b: String = chars[cut..].iter().collect(); f(ctx, &a, 0xEEA); f(ctx, &b, 0xEEA); }
+            let mut cur = base.clone();
+            for k in 0..400 { if k % 8 == 0 { cur = base.clone(); } cur = gen::mutate(&mut rng, &cur); f(ctx, &cur, gen::ext_pattern(rng.below(256))); f(ctx, &cur, 0xEEA); }
+            // multi-byte neighbours at every position
+            for pos in 0..=chars.len().min(60) { for ins in ["é", "😀", "\u{00A0}", "\n"] { let mut t: String = chars[..pos].iter().collect(); t.push_str(&crate::corpus::unescape(ins)); t.extend(chars[pos..].iter()); f(ctx, &t, 0xEEA); f(ctx, &t, 0); } }
+        }
+        ctx.count_n("focus-bases", focus.len().min(40) as u64);
+    }
     // exhaustive short strings over the token alphabet
     let maxlen = if ctx.thorough { 3 } else { 2 };
     let n = gen::ALPHABET.len();
